@@ -1287,7 +1287,7 @@ class Vars:
             upper = upper.reshape((upper.size, ))
             indices = np.arange(self.first, self.first + self.size,
                                 dtype=np.int32)
-            return Bounds(self.model, indices, upper, 'U')
+            return Bounds(self.model, indices, upper, 'U', shape=self.shape)
         else:
             return self.to_affine() <= other
 
@@ -1300,7 +1300,7 @@ class Vars:
             lower = lower.reshape((lower.size, ))
             indices = np.arange(self.first, self.first + self.size,
                                 dtype=np.int32)
-            return Bounds(self.model, indices, lower, 'L')
+            return Bounds(self.model, indices, lower, 'L', shape=self.shape)
         else:
             return self.to_affine() >= other
 
@@ -1439,7 +1439,8 @@ class VarSub(Vars):
             indices = self.indices.reshape((self.indices.size, ))
             bound_indices = upper.indices.reshape((upper.indices.size, ))[indices]
             bound_values = upper.values.reshape(upper.values.size)[indices]
-            return Bounds(upper.model, bound_indices, bound_values, 'U')
+            return Bounds(upper.model, bound_indices, bound_values, 'U',
+                          shape=np.shape(self.indices))
         else:
             return self.to_affine().__le__(other)
 
@@ -1450,7 +1451,8 @@ class VarSub(Vars):
             indices = self.indices.reshape((self.indices.size, ))
             bound_indices = lower.indices.reshape((lower.indices.size, ))[indices]
             bound_values = lower.values.reshape((lower.indices.size, ))[indices]
-            return Bounds(lower.model, bound_indices, bound_values, 'L')
+            return Bounds(lower.model, bound_indices, bound_values, 'L',
+                          shape=np.shape(self.indices))
         else:
             return self.to_affine().__ge__(other)
 
@@ -2372,7 +2374,7 @@ class Affine:
         if isinstance(left, Affine) and not isinstance(left, DecAffine):
             return LinConstr(left.model, left.linear,
                              -left.const.reshape((left.const.size, )),
-                             np.zeros(left.const.size))
+                             np.zeros(left.const.size), shape=left.shape)
         else:
             return left.__le__(0)
 
@@ -2382,7 +2384,7 @@ class Affine:
         if isinstance(left, Affine) and not isinstance(left, DecAffine):
             return LinConstr(left.model, left.linear,
                              -left.const.reshape((left.const.size,)),
-                             np.zeros(left.const.size))
+                             np.zeros(left.const.size), shape=left.shape)
         else:
             return left.__le__(0)
 
@@ -2392,7 +2394,7 @@ class Affine:
         if isinstance(left, Affine) and not isinstance(left, DecAffine):
             return LinConstr(left.model, left.linear,
                              -left.const.reshape((left.const.size,)),
-                             np.ones(left.const.size))
+                             np.ones(left.const.size), shape=left.shape)
         else:
             return left.__eq__(0)
 
@@ -3104,7 +3106,7 @@ class LinConstr:
     The LinConstr class creates an array of linear constraints.
     """
 
-    def __init__(self, model, linear, const, sense, sign=1):
+    def __init__(self, model, linear, const, sense, sign=1, shape=None):
 
         self.model = model
         self.linear = linear
@@ -3112,6 +3114,7 @@ class LinConstr:
         self.sense = sense
         self.sign = sign
         self.index = None
+        self.shape = shape
 
     def __repr__(self):
 
@@ -3137,7 +3140,11 @@ class LinConstr:
             warnings.warn(msg)
         else:
             dual_sol = solution.y['pi'][self.model.ciarray == cidx] * self.model.sign
-            if dual_sol.size == 1:
+            shape = getattr(self, 'shape', None)
+            if (shape is not None and len(shape) >= 2 and
+                    int(np.prod(shape)) == dual_sol.size):
+                dual_sol = dual_sol.reshape(shape)
+            elif dual_sol.size == 1:
                 dual_sol = dual_sol.item()
 
             return dual_sol
@@ -3224,12 +3231,13 @@ class Bounds:
     The Bounds class creates an object for upper or lower bounds.
     """
 
-    def __init__(self, model, indices, values, btype):
+    def __init__(self, model, indices, values, btype, shape=None):
 
         self.model = model
         self.indices = indices
         self.values = values
         self.btype = btype
+        self.shape = shape
 
     def dual(self):
 
@@ -3254,7 +3262,11 @@ class Bounds:
             else:
                 raise ValueError('Unknown bounds. ')
 
-            if output.size == 1:
+            shape = getattr(self, 'shape', None)
+            if (shape is not None and len(shape) >= 2 and
+                    int(np.prod(shape)) == output.size):
+                output = output.reshape(shape)
+            elif output.size == 1:
                 output = output.item()
 
             return output
